@@ -161,6 +161,7 @@ func init() {
 		props[id].Harnesses = append(props[id].Harnesses, retrieve...)
 	}
 	props["C12"].Harnesses = append(props["C12"].Harnesses, HarnessSpec{Name: "VH_C12_routing", Replay: "native", Unwind: 400})
+	props["C09"].Harnesses = append(props["C09"].Harnesses, HarnessSpec{Name: "VH_C09_root_kinds", Replay: "native", Unwind: 400, Panics: true})
 	rollover := HarnessSpec{Name: "VH_C02_store_rollover", Replay: "native", Unwind: 400}
 	logout := HarnessSpec{Name: "VH_C10_logout_post", Replay: "native", Unwind: 400}
 	for _, id := range []string{"C01", "C02", "C10"} {
